@@ -81,7 +81,7 @@ Proof. vm_compute. repeat split; reflexivity. Qed.
 (* ------------------------------------------------------------------------------------------------------
    Added in build session 4 (statements re-stated from the proof files by harness tooling; each is closed by
    exact). *)
-From SplipyModel Require Import Proofs.ObjEval Proofs.SplitTiling Proofs.RestrictDirEval Proofs.SplitEndToEnd Proofs.SplitCompose Transfer.ParamObj Transfer.ParamOps Transfer.ParamOps2 Proofs.PeriodicInsert Proofs.PeriodicSplit.
+From SplipyModel Require Import Proofs.ObjEval Proofs.SplitTiling Proofs.RestrictDirEval Proofs.SplitEndToEnd Proofs.SplitCompose Transfer.ParamObj Transfer.ParamOps Transfer.ParamOps2 Proofs.PeriodicInsert Proofs.PeriodicSplit Model.SplitSnap Proofs.SplitSnapProofs Transfer.ParamSplitSnap Proofs.AppendEndToEnd.
 Open Scope R_scope.
 Theorem C07_split_insert_spec :
   forall (tol : R) (o : obj R) (d p : nat) (k ks : list R),
@@ -331,4 +331,404 @@ Theorem C07_periodic_hypotheses_satisfiable :
            |} 0 4 3 8 8 ex_knots (5 / 2) rest.
 Proof. exact @ex_phyps. Qed.
 Print Assumptions C07_periodic_hypotheses_satisfiable.
+
+Theorem C07_snap_to_knot_spec :
+  forall k : list R,
+         sorted (kn k) ->
+         forall tol x : R,
+         (exists i : nat,
+            (i < length k)%nat /\
+            snap_to_knot k tol x = kn k i /\
+            x - tol <= kn k i < x + tol /\ (forall v : R, In v k -> x - tol <= v -> kn k i <= v)) \/
+         snap_to_knot k tol x = x /\ window_free tol k x.
+Proof. exact @snap_to_knot_spec. Qed.
+Print Assumptions C07_snap_to_knot_spec.
+
+Theorem C07_snap_to_knot_id_iff :
+  forall k : list R,
+         sorted (kn k) ->
+         forall tol x : R,
+         0 < tol ->
+         snap_to_knot k tol x = x <-> window_free tol k x \/ In x k /\ (forall v : R, In v k -> x - tol <= v -> x <= v).
+Proof. exact @snap_to_knot_id_iff. Qed.
+Print Assumptions C07_snap_to_knot_id_iff.
+
+Theorem C07_snap_to_knot_continuity :
+  forall (tol : R) (p : nat) (k : list R) (x : R),
+         sorted (kn k) ->
+         0 < tol ->
+         kn k (p - 1) <= x <= kn k (length k - p) ->
+         (Tol.basis_continuity tol {| b_order := p; b_knots := k; b_per1 := 0 |} x = Ok None <-> window_free tol k x) /\
+         (Tol.basis_continuity tol {| b_order := p; b_knots := k; b_per1 := 0 |} x = Ok None ->
+          snap_to_knot k tol x = x) /\
+         (Tol.basis_continuity tol {| b_order := p; b_knots := k; b_per1 := 0 |} x <> Ok None ->
+          In (snap_to_knot k tol x) k /\ x - tol <= snap_to_knot k tol x < x + tol).
+Proof. exact @snap_to_knot_continuity. Qed.
+Print Assumptions C07_snap_to_knot_continuity.
+
+Theorem C07_snapped_knot_sep :
+  forall k : list R,
+         sorted (kn k) -> forall tol : R, separated tol k -> forall x : R, knot_sep tol k (snap_to_knot k tol x).
+Proof. exact @snapped_knot_sep. Qed.
+Print Assumptions C07_snapped_knot_sep.
+
+Theorem C07_obj_split_snapped_id :
+  forall (fuel : nat) (tol : R) (o : obj R) (d : nat) (ks : list R),
+         wf_obj_R tol o ->
+         (d < length (o_bases o))%nat ->
+         Forall (knot_sep tol (b_knots (nth d (o_bases o) dflt_basis))) ks ->
+         obj_split_snapped fuel tol o d ks = obj_split fuel tol o d ks.
+Proof. exact @obj_split_snapped_id. Qed.
+Print Assumptions C07_obj_split_snapped_id.
+
+Theorem C07_snapped_split_then_evaluate :
+  forall (tol : R) (o : obj R) (d p : nat) (k ks : list R),
+         split_hyps tol o d p k ks ->
+         forall (fuel : nat) (pieces : list (obj R)),
+         obj_split_snapped fuel tol o d ks = Ok pieces ->
+         forall (j : nat) (ts : list R),
+         (j <= length ks)%nat ->
+         piece_param tol o d p k ks j ts -> obj_eval tol (nth j pieces o) ts = obj_eval tol o ts.
+Proof. exact @snapped_split_then_evaluate. Qed.
+Print Assumptions C07_snapped_split_then_evaluate.
+
+Theorem C07_snapped_split_tiling :
+  forall (tol : R) (o : obj R) (d p : nat) (k ks : list R),
+         split_hyps tol o d p k ks ->
+         forall (fuel : nat) (pieces : list (obj R)),
+         obj_split_snapped fuel tol o d ks = Ok pieces ->
+         forall j : nat,
+         (j <= length ks)%nat ->
+         let pj := nth j pieces o in
+         let bj := nth d (o_bases pj) dflt_basis in
+         wf_obj_R tol pj /\
+         length (o_bases pj) = length (o_bases o) /\
+         (forall i : nat, i <> d -> nth i (o_bases pj) dflt_basis = nth i (o_bases o) dflt_basis) /\
+         b_order bj = p /\
+         b_per1 bj = 0%nat /\
+         b_start bj = nth j (ends p k ks) 0 /\
+         b_end bj = nth (S j) (ends p k ks) 0 /\ nth j (ends p k ks) 0 + 2 * tol <= nth (S j) (ends p k ks) 0.
+Proof. exact @snapped_split_tiling. Qed.
+Print Assumptions C07_snapped_split_tiling.
+
+Theorem C07_snapped_split_nonperiodic :
+  forall (tol : R) (o : obj R) (d p : nat) (k ks : list R),
+         0 < tol ->
+         wf_obj_R tol o ->
+         (d < length (o_bases o))%nat ->
+         nth d (o_bases o) dflt_basis = {| b_order := p; b_knots := k; b_per1 := 0 |} ->
+         separated tol k ->
+         (forall v : R, (mult k v <= p)%nat) ->
+         forall fuel : nat,
+         Sorted.Sorted (gap tol) (st p k :: map (snap_to_knot k tol) ks ++ [en p k]) ->
+         (1 <= fuel)%nat ->
+         exists pieces : list (obj R),
+           obj_split_snapped fuel tol o d ks = Ok pieces /\
+           length pieces = S (length ks) /\
+           (forall j : nat,
+            (j <= length ks)%nat ->
+            let pj := nth j pieces o in
+            let bj := nth d (o_bases pj) dflt_basis in
+            wf_obj_R tol pj /\
+            length (o_bases pj) = length (o_bases o) /\
+            (forall i : nat, i <> d -> nth i (o_bases pj) dflt_basis = nth i (o_bases o) dflt_basis) /\
+            b_order bj = p /\
+            b_per1 bj = 0%nat /\
+            b_start bj = nth j (ends p k (map (snap_to_knot k tol) ks)) 0 /\
+            b_end bj = nth (S j) (ends p k (map (snap_to_knot k tol) ks)) 0 /\
+            nth j (ends p k (map (snap_to_knot k tol) ks)) 0 + 2 * tol <=
+            nth (S j) (ends p k (map (snap_to_knot k tol) ks)) 0 /\
+            (forall ts : list R,
+             piece_param tol o d p k (map (snap_to_knot k tol) ks) j ts -> obj_eval tol pj ts = obj_eval tol o ts)).
+Proof. exact @snapped_split_nonperiodic. Qed.
+Print Assumptions C07_snapped_split_nonperiodic.
+
+Theorem C07_snapped_split_nonperiodic_raw :
+  forall (tol : R) (o : obj R) (d p : nat) (k ks : list R),
+         0 < tol ->
+         wf_obj_R tol o ->
+         (d < length (o_bases o))%nat ->
+         nth d (o_bases o) dflt_basis = {| b_order := p; b_knots := k; b_per1 := 0 |} ->
+         separated tol k ->
+         (forall v : R, (mult k v <= p)%nat) ->
+         forall fuel : nat,
+         Sorted.Sorted (gap (2 * tol)) (st p k :: ks ++ [en p k]) ->
+         (1 <= fuel)%nat ->
+         exists pieces : list (obj R),
+           obj_split_snapped fuel tol o d ks = Ok pieces /\
+           length pieces = S (length ks) /\
+           (forall j : nat,
+            (j <= length ks)%nat ->
+            let pj := nth j pieces o in
+            let bj := nth d (o_bases pj) dflt_basis in
+            wf_obj_R tol pj /\
+            length (o_bases pj) = length (o_bases o) /\
+            (forall i : nat, i <> d -> nth i (o_bases pj) dflt_basis = nth i (o_bases o) dflt_basis) /\
+            b_order bj = p /\
+            b_per1 bj = 0%nat /\
+            b_start bj = nth j (ends p k (map (snap_to_knot k tol) ks)) 0 /\
+            b_end bj = nth (S j) (ends p k (map (snap_to_knot k tol) ks)) 0 /\
+            nth j (ends p k (map (snap_to_knot k tol) ks)) 0 + 2 * tol <=
+            nth (S j) (ends p k (map (snap_to_knot k tol) ks)) 0 /\
+            (forall ts : list R,
+             piece_param tol o d p k (map (snap_to_knot k tol) ks) j ts -> obj_eval tol pj ts = obj_eval tol o ts)).
+Proof. exact @snapped_split_nonperiodic_raw. Qed.
+Print Assumptions C07_snapped_split_nonperiodic_raw.
+
+Theorem C07_snapped_split_at_knot :
+  forall (tol : R) (o : obj R) (d p : nat) (k : list R) (x kappa : R) (fuel : nat),
+         0 < tol ->
+         wf_obj_R tol o ->
+         (d < length (o_bases o))%nat ->
+         nth d (o_bases o) dflt_basis = {| b_order := p; b_knots := k; b_per1 := 0 |} ->
+         In kappa k ->
+         x - tol <= kappa < x + tol ->
+         isolated tol k kappa ->
+         st p k < kappa < en p k ->
+         (mult k kappa <= p)%nat ->
+         (1 <= fuel)%nat ->
+         obj_split_snapped fuel tol o d [x] = obj_split fuel tol o d [kappa] /\
+         (exists p1 p2 : obj R,
+            obj_split_snapped fuel tol o d [x] = Ok [p1; p2] /\
+            wf_obj_R tol p1 /\
+            wf_obj_R tol p2 /\
+            b_start (nth d (o_bases p1) dflt_basis) = st p k /\
+            b_end (nth d (o_bases p1) dflt_basis) = kappa /\
+            b_start (nth d (o_bases p2) dflt_basis) = kappa /\
+            b_end (nth d (o_bases p2) dflt_basis) = en p k /\
+            (forall ts : list R,
+             (forall i : nat,
+              (i < length (o_bases o))%nat -> i <> d -> in_dom tol (nth i (o_bases o) dflt_basis) (nth i ts 0)) ->
+             st p k <= nth d ts 0 <= kappa - 2 * tol -> obj_eval tol p1 ts = obj_eval tol o ts) /\
+            (forall ts : list R,
+             (forall i : nat,
+              (i < length (o_bases o))%nat -> i <> d -> in_dom tol (nth i (o_bases o) dflt_basis) (nth i ts 0)) ->
+             kappa <= nth d ts 0 <= en p k -> obj_eval tol p2 ts = obj_eval tol o ts)).
+Proof. exact @snapped_split_at_knot. Qed.
+Print Assumptions C07_snapped_split_at_knot.
+
+Theorem C07_snapped_split_periodic_any :
+  forall (tol : R) (o : obj R) (d p per1 n : nat) (T : R) (k : list R) (x0 : R) (rest : list R) (fuel : nat),
+         0 < tol ->
+         wf_obj_R tol o ->
+         (d < length (o_bases o))%nat ->
+         nth d (o_bases o) dflt_basis = {| b_order := p; b_knots := k; b_per1 := per1 |} ->
+         per_canon k p per1 n T ->
+         per_strict k per1 ->
+         separated tol k ->
+         (forall v : R, (mult k v <= p)%nat) ->
+         let snap := snap_to_knot k tol in
+         kn k (p - 1) <= snap x0 ->
+         Sorted.Sorted (gap tol) (snap x0 :: map snap rest ++ [kn k (n + per1)]) ->
+         (2 <= fuel)%nat ->
+         exists pieces : list (obj R),
+           obj_split_snapped fuel tol o d (x0 :: rest) = Ok pieces /\
+           length pieces = S (length rest) /\
+           (forall j : nat,
+            (j <= length rest)%nat ->
+            let pj := nth j pieces o in
+            let bj := nth d (o_bases pj) dflt_basis in
+            wf_obj_R tol pj /\
+            length (o_bases pj) = length (o_bases o) /\
+            (forall i : nat, i <> d -> nth i (o_bases pj) dflt_basis = nth i (o_bases o) dflt_basis) /\
+            b_order bj = p /\
+            b_per1 bj = 0%nat /\
+            b_start bj = nth j (pends (snap x0) T (map snap rest)) 0 /\
+            b_end bj = nth (S j) (pends (snap x0) T (map snap rest)) 0 /\
+            nth j (pends (snap x0) T (map snap rest)) 0 + 2 * tol <= nth (S j) (pends (snap x0) T (map snap rest)) 0 /\
+            (forall ts : list R,
+             ppiece_param tol o d p per1 n T k (snap x0) (map snap rest) j ts -> obj_eval tol pj ts = obj_eval tol o ts)).
+Proof. exact @snapped_split_periodic_any. Qed.
+Print Assumptions C07_snapped_split_periodic_any.
+
+Theorem C07_periodic_resnap_id :
+  forall (tol : R) (o : obj R) (d p per1 n : nat) (T : R) (k : list R) (x0 y : R) (rest : list R),
+         psplit_hyps tol o d p per1 n T k x0 (y :: rest) ->
+         exists o1 : obj R,
+           (forall f : nat, obj_split (S f) tol o d (x0 :: y :: rest) = obj_split f tol o1 d (y :: rest)) /\
+           snap_split_values tol o1 d (y :: rest) = y :: rest /\
+           (forall f : nat, obj_split_snapped f tol o1 d (y :: rest) = obj_split f tol o1 d (y :: rest)).
+Proof. exact @periodic_resnap_id. Qed.
+Print Assumptions C07_periodic_resnap_id.
+
+Theorem C07_old_split_near_knot_defect :
+  exq_domains (obj_split 1 exq_tol exq_o 0 [exq_x]) = Some [(0%Q, 0.300000000001%Q); (3 # 5, 1%Q)].
+Proof. exact @old_split_defect. Qed.
+Print Assumptions C07_old_split_near_knot_defect.
+
+Theorem C07_repaired_split_near_knot :
+  exq_domains (obj_split_snapped 1 exq_tol exq_o 0 [exq_x]) = Some [(0%Q, 0.3%Q); (0.3%Q, 1%Q)] /\
+         match obj_split_snapped 1 exq_tol exq_o 0 [exq_x] with
+         | Ok (p1 :: _) => map Qred (b_knots (nth 0 (o_bases p1) exq_b)) = [0%Q; 0%Q; 0%Q; 0.3%Q; 0.3%Q; 0.3%Q]
+         | _ => False
+         end.
+Proof. exact @snapped_example_Q. Qed.
+Print Assumptions C07_repaired_split_near_knot.
+
+Theorem C07_repaired_split_at_window_boundary :
+  exq_domains (obj_split_snapped 1 exq_tol exq_o 0 [(0.3 + exq_tol)%Q]) = Some [(0%Q, 0.3%Q); (0.3%Q, 1%Q)] /\
+         exq_domains (obj_split 1 exq_tol exq_o 0 [(0.3 + exq_tol)%Q]) = Some [(0%Q, 0.3000000001%Q); (3 # 5, 1%Q)].
+Proof. exact @snapped_boundary_Q. Qed.
+Print Assumptions C07_repaired_split_at_window_boundary.
+
+Theorem C07_executed_is_proved_split_snapped :
+  forall (fuel : nat) (tol : Q) (o : obj Q) (d : nat) (ks : list Q),
+         resmap (map objQ2R) (obj_split_snapped fuel tol o d ks) =
+         obj_split_snapped fuel (Q2R tol) (objQ2R o) d (map Q2R ks).
+Proof. exact @obj_split_snapped_transfer. Qed.
+Print Assumptions C07_executed_is_proved_split_snapped.
+
+Theorem C07_append_ok :
+  forall (tol : R) (o1 o2 : obj R),
+         clamped_curve tol o1 ->
+         clamped_curve tol o2 ->
+         forall d1 d2 : obj R,
+         Order.obj_raise_order tol (fst (Identical.obj_compatible o1 o2))
+           [(b_order (nth 0 (o_bases o2) dflt_basis) - b_order (nth 0 (o_bases o1) dflt_basis))%nat] = 
+         Ok d1 ->
+         Order.obj_raise_order tol (snd (Identical.obj_compatible o1 o2))
+           [(b_order (nth 0 (o_bases o1) dflt_basis) - b_order (nth 0 (o_bases o2) dflt_basis))%nat] = 
+         Ok d2 ->
+         obj_append tol o1 o2 =
+         Ok
+           (append_result d1 d2
+              (Nat.max (b_order (nth 0 (o_bases o1) dflt_basis)) (b_order (nth 0 (o_bases o2) dflt_basis)))).
+Proof. exact @append_ok. Qed.
+Print Assumptions C07_append_ok.
+
+Theorem C07_append_same_order_ok :
+  forall (tol : R) (o1 o2 : obj R),
+         clamped_curve tol o1 ->
+         clamped_curve tol o2 ->
+         b_order (nth 0 (o_bases o1) dflt_basis) = b_order (nth 0 (o_bases o2) dflt_basis) ->
+         let c := Identical.obj_compatible o1 o2 in
+         obj_append tol o1 o2 = Ok (append_result (fst c) (snd c) (b_order (nth 0 (o_bases o1) dflt_basis))).
+Proof. exact @append_same_order_ok. Qed.
+Print Assumptions C07_append_same_order_ok.
+
+Theorem C07_append_end_to_end :
+  forall (tol : R) (o1 o2 d1 d2 : obj R),
+         0 < tol ->
+         clamped_curve tol o1 ->
+         clamped_curve tol o2 ->
+         let b1 := nth 0 (o_bases o1) dflt_basis in
+         let b2 := nth 0 (o_bases o2) dflt_basis in
+         let p1 := b_order b1 in
+         let p2 := b_order b2 in
+         let c := Identical.obj_compatible o1 o2 in
+         (2 <= Nat.max p1 p2)%nat ->
+         ((p1 < p2)%nat -> separated tol (b_knots b1)) ->
+         ((p2 < p1)%nat -> separated tol (b_knots b2)) ->
+         Order.obj_raise_order tol (fst c) [(p2 - p1)%nat] = Ok d1 ->
+         Order.obj_raise_order tol (snd c) [(p1 - p2)%nat] = Ok d2 ->
+         last (o_cps d1) [] = hd [] (o_cps d2) ->
+         exists o : obj R, obj_append tol o1 o2 = Ok o /\ append_spec tol o1 o2 o.
+Proof. exact @append_end_to_end. Qed.
+Print Assumptions C07_append_end_to_end.
+
+Theorem C07_append_end_to_end_same_order :
+  forall (tol : R) (o1 o2 : obj R),
+         0 < tol ->
+         clamped_curve tol o1 ->
+         clamped_curve tol o2 ->
+         b_order (nth 0 (o_bases o1) dflt_basis) = b_order (nth 0 (o_bases o2) dflt_basis) ->
+         (2 <= b_order (nth 0 (o_bases o1) dflt_basis))%nat ->
+         let c := Identical.obj_compatible o1 o2 in
+         last (o_cps (fst c)) [] = hd [] (o_cps (snd c)) ->
+         exists o : obj R, obj_append tol o1 o2 = Ok o /\ append_spec tol o1 o2 o.
+Proof. exact @append_end_to_end_same_order. Qed.
+Print Assumptions C07_append_end_to_end_same_order.
+
+Theorem C07_split_append_rejoin :
+  forall (tol : R) (o : obj R) (p : nat) (k : list R) (x : R) (fuel : nat) (pieces : list (obj R)),
+         split_hyps tol o 0 p k [x] ->
+         length (o_bases o) = 1%nat ->
+         RaiseAmount.open_knots k p ->
+         (2 <= p)%nat ->
+         (mult k x < p)%nat ->
+         obj_split fuel tol o 0 [x] = Ok pieces ->
+         exists r : obj R, obj_append tol (nth 0 pieces o) (nth 1 pieces o) = Ok r /\ rejoin_spec tol o p k x r.
+Proof. exact @split_append_rejoin. Qed.
+Print Assumptions C07_split_append_rejoin.
+
+Theorem C07_split_append_roundtrip :
+  forall (tol : R) (o : obj R) (p : nat) (k : list R) (x : R) (fuel : nat),
+         split_hyps tol o 0 p k [x] ->
+         length (o_bases o) = 1%nat ->
+         RaiseAmount.open_knots k p ->
+         (2 <= p)%nat ->
+         (mult k x < p)%nat ->
+         (1 <= fuel)%nat ->
+         exists (pieces : list (obj R)) (r : obj R),
+           obj_split fuel tol o 0 [x] = Ok pieces /\
+           length pieces = 2%nat /\
+           obj_append tol (nth 0 pieces o) (nth 1 pieces o) = Ok r /\ rejoin_spec tol o p k x r.
+Proof. exact @split_append_roundtrip. Qed.
+Print Assumptions C07_split_append_roundtrip.
+
+Theorem C07_example_append :
+  exists o : obj R,
+           obj_append (1 / 100)
+             {|
+               o_bases := [{| b_order := 2; b_knots := [0; 0; 1; 1]; b_per1 := 0 |}];
+               o_cps := [[0; 0]; [1; 0]];
+               o_dim := 2;
+               o_rat := false
+             |}
+             {|
+               o_bases := [{| b_order := 2; b_knots := [0; 0; 2; 2]; b_per1 := 0 |}];
+               o_cps := [[1; 0; 0]; [1; 1; 1]];
+               o_dim := 3;
+               o_rat := false
+             |} = Ok o /\
+           append_spec (1 / 100)
+             {|
+               o_bases := [{| b_order := 2; b_knots := [0; 0; 1; 1]; b_per1 := 0 |}];
+               o_cps := [[0; 0]; [1; 0]];
+               o_dim := 2;
+               o_rat := false
+             |}
+             {|
+               o_bases := [{| b_order := 2; b_knots := [0; 0; 2; 2]; b_per1 := 0 |}];
+               o_cps := [[1; 0; 0]; [1; 1; 1]];
+               o_dim := 3;
+               o_rat := false
+             |} o.
+Proof. exact @example_append. Qed.
+Print Assumptions C07_example_append.
+
+Theorem C07_example_rejoin :
+  exists (pieces : list (obj R)) (r : obj R),
+           obj_split 1 (1 / 100)
+             {|
+               o_bases := [{| b_order := 3; b_knots := [0; 0; 0; 1; 2; 2; 2]; b_per1 := 0 |}];
+               o_cps := [[0; 0]; [1; 2]; [3; 2]; [4; 0]];
+               o_dim := 2;
+               o_rat := false
+             |} 0 [1 / 2] = Ok pieces /\
+           length pieces = 2%nat /\
+           obj_append (1 / 100)
+             (nth 0 pieces
+                {|
+                  o_bases := [{| b_order := 3; b_knots := [0; 0; 0; 1; 2; 2; 2]; b_per1 := 0 |}];
+                  o_cps := [[0; 0]; [1; 2]; [3; 2]; [4; 0]];
+                  o_dim := 2;
+                  o_rat := false
+                |})
+             (nth 1 pieces
+                {|
+                  o_bases := [{| b_order := 3; b_knots := [0; 0; 0; 1; 2; 2; 2]; b_per1 := 0 |}];
+                  o_cps := [[0; 0]; [1; 2]; [3; 2]; [4; 0]];
+                  o_dim := 2;
+                  o_rat := false
+                |}) = Ok r /\
+           rejoin_spec (1 / 100)
+             {|
+               o_bases := [{| b_order := 3; b_knots := [0; 0; 0; 1; 2; 2; 2]; b_per1 := 0 |}];
+               o_cps := [[0; 0]; [1; 2]; [3; 2]; [4; 0]];
+               o_dim := 2;
+               o_rat := false
+             |} 3 [0; 0; 0; 1; 2; 2; 2] (1 / 2) r.
+Proof. exact @example_rejoin. Qed.
+Print Assumptions C07_example_rejoin.
 
